@@ -55,4 +55,10 @@ def validRx (kinds : List Nat) : R :=
   let m := Kinds.K kinds (alnumKinds ++ sepKinds)
   .cat a (opt (.cat (.star m) a))
 
+/-- normalised names as a regex: runs of lower-case letters/digits separated by single dashes -/
+def lowKinds : List Nat := Kinds.digit :: (List.range 26).map (· + 2)
+def normalizedRx (kinds : List Nat) : R :=
+  let a := Kinds.K kinds lowKinds
+  .cat (plus a) (.star (.cat (Kinds.K kinds [Kinds.dash]) (plus a)))
+
 end NameSpec
